@@ -16,7 +16,7 @@ MANIFEST = dict(
     technique='TLA+ closed model of the echo channel/replier checked by TLC; P-spec TraceIcmp validates traces (requests injected, replies captured at the link tap, quiescence events) of the real stack',
     text='TLC explores all arrival/service interleavings of the bounded request channel (capacity scaled to 2-3) for NoUnsolicited and the must-answer rule; the real stack is driven with seeded request mixes (identifiers, sequence numbers, payload lengths 0..MTU-28 odd/even, IPv4 fragmented in all orders with duplicates, multi-view packets, IPv6, bursts above the 10-request bound, own/foreign destinations) and TLC decides for every reply whether it mirrors exactly one pending request from the pinged address with valid checksums, and at quiescence that every request accepted while fewer than ten were pending was answered.',
     design='5 C13',
-    note='Replies are matched on (version, addresses, ident, seq, payload length, first/last 48 payload bytes, RFC 1071 sum of the payload). Quiescence is state-based (the driver waits for the owed replies; a 10 s give-up bound produces a quiesce event that the spec then rejects). Only lower bounds on time. Payloads up to the MTU; larger (fragment-assembled) requests are outside the statement.')
+    note='Replies are matched on (version, addresses, ident, seq, payload length, first/last 48 payload bytes, RFC 1071 sum of the payload). Quiescence is state-based (the driver waits for the owed replies; a 10 s give-up bound produces a quiesce event that the spec then rejects). Only lower bounds on time. Payloads up to the MTU; larger (fragment-assembled) requests are outside the statement. A quarter of the scenarios run over a link with a transmit queue that keeps the header views it was handed by reference (as protocol/link/channel does) and puts the frames on the wire after the burst.')
 
 SPEC = ['icmp']
 
